@@ -24,6 +24,7 @@ func init() {
 	wrap("C11", extra7C11)
 	wrap("C15", extra7C15)
 	wrap("C07", extra7C07)
+	wrap("C17", extra7C17)
 	wrap("C12", extra7C12)
 	wrap("C20", extra7C20)
 	wrap("C03", func(c *Ctx) { extra7Unbuffered(c, "C03-R18") })
@@ -909,4 +910,67 @@ func extra7C12(c *Ctx) {
 		}
 		c.Expect(rule, "tests of readPart's error in Prepare", n, 1)
 	}
+}
+
+// ---------------------------------------------------------------------------------- C17
+
+func extra7C17(c *Ctx) {
+	rule := "C17-R15"
+	c.Rule(rule, "the streaming tool-call buffer forgets only what was parsed: in ChatHandler every Reset of the builder that collects the streamed text for parseToolCalls is followed, before the callback returns, by writing back the unparsed end (the second result of parseObjectsRest applied to the builder's text, taken before the Reset) — a runner chunk may hold the end of one call and the start of the next, and emptying the whole buffer loses the second call in the stream while the non-streamed answer has both")
+	f := c.Fn(rule, "server", "Server.ChatHandler")
+	if f == nil {
+		return
+	}
+	info := f.Info()
+	n := 0
+	for _, l := range f.Lits() {
+		g := c.G(l)
+		if len(g.FindCalls("server.Model.parseToolCalls")) == 0 {
+			continue
+		}
+		for _, rs := range g.FindCalls("strings.Builder.Reset") {
+			// only the builder that feeds parseToolCalls
+			b := core.PathOf(info, rs.Node.(*ast.CallExpr).Fun.(*ast.SelectorExpr).X)
+			feeds := false
+			for _, pc := range g.FindCalls("server.Model.parseToolCalls") {
+				for _, sc := range core.CallsTo(info, pc.Node, false, "strings.Builder.String") {
+					if p := core.PathOf(info, sc.Fun.(*ast.SelectorExpr).X); p.Valid() && b.Valid() && p.Root == b.Root {
+						feeds = true
+					}
+				}
+			}
+			if !feeds {
+				continue
+			}
+			n++
+			ok := false
+			for _, pr := range g.FindCalls("server.parseObjectsRest") {
+				if !g.Dominates(pr.Loc, rs.Loc) {
+					continue
+				}
+				usesBuf := false
+				for _, sc := range core.CallsTo(info, pr.Node, false, "strings.Builder.String") {
+					if p := core.PathOf(info, sc.Fun.(*ast.SelectorExpr).X); p.Valid() && p.Root == b.Root {
+						usesBuf = true
+					}
+				}
+				rest := core.ResultVar(info, pr.Top, pr.Node.(*ast.CallExpr), 1)
+				if !usesBuf || rest == nil {
+					continue
+				}
+				for _, ws := range g.FindCalls("strings.Builder.WriteString") {
+					wc := ws.Node.(*ast.CallExpr)
+					if p := core.PathOf(info, wc.Fun.(*ast.SelectorExpr).X); !p.Valid() || p.Root != b.Root {
+						continue
+					}
+					if isIdentOf(info, wc.Args[0], rest) && g.Dominates(rs.Loc, ws.Loc) && ws.Loc != rs.Loc {
+						// nothing leaves the callback between the two
+						ok = true
+					}
+				}
+			}
+			c.Check(rule, l.Key()+" Reset#"+itoa(n)+" keeps the unparsed end", c.Pos(rs.Node), ok, "the buffer is emptied without writing back what parseObjectsRest could not use: the start of a further tool call in the same chunk is lost")
+		}
+	}
+	c.Expect(rule, "resets of the streamed tool-call buffer in ChatHandler", n, 1)
 }
